@@ -643,7 +643,8 @@ fn sid_expect(fx: &Fx, frame: &str, k: Key, recv_side: bool, unopened_must: bool
         SidClass::LocalUnopened if unopened_must => Some(Expect { case: format!("{frame}:local-unopened"), allowed: vec!["StreamState"], legal: false }),
         // RFC 9000 prescribes nothing for this frame type on a stream the endpoint has not opened yet
         SidClass::LocalUnopened => Some(Expect { case: format!("{frame}:local-unopened"), allowed: vec![], legal: true }),
-        SidClass::OverLimit(at) => Some(Expect { case: format!("{frame}:index-{}", if at { "at-limit" } else { "beyond-limit" }), allowed: vec!["StreamLimit"], legal: false }),
+        // one check (`try_accept_sid`) serves every frame type: one site per root cause
+        SidClass::OverLimit(at) => Some(Expect { case: format!("peer-stream-index-{}", if at { "at-limit" } else { "beyond-limit" }), allowed: vec!["StreamLimit"], legal: false }),
         SidClass::Fine => None,
     }
 }
@@ -656,6 +657,7 @@ pub fn probe(h: &StreamHist, forged: &Forged) -> ProbeResult {
     if let Err(e) = fx.run(&h.ops) {
         return ProbeResult::harness(e);
     }
+    meter::arm(true);
     let mut res = ProbeResult::new();
     res.units = fx.units;
     let before = fx.sink.0.lock().unwrap().len();
@@ -698,14 +700,22 @@ pub fn probe(h: &StreamHist, forged: &Forged) -> ProbeResult {
                 "STREAM {k:?} (local, uni, index) offset={off} len={l} fin={fin}; stream largest={} final={:?} window={} terminal={}, connection room {conn_room}, limits {:?}, opened {:?}",
                 m.largest, m.final_size, m.window, m.terminal, fx.limit, fx.opened_local
             );
-            res.expect = sid_expect(&fx, "stream", k, true, true).or_else(|| {
-                if m.terminal {
-                    return Some(Expect { case: "stream:closed".into(), allowed: vec![], legal: true });
-                }
-                let (mut allowed, mut case) = (Vec::new(), String::new());
-                if end > MAX62 {
-                    union(&mut allowed, &mut case, &["FrameEncoding", "FlowControl"], "stream:offset+len-overflow");
-                }
+            // every rule the frame breaks is collected; the RFC does not order them, so any of their errors is right
+            let sid_rule = sid_expect(&fx, "stream", k, true, true);
+            let on_stream = matches!(classify(&fx, k, true), SidClass::Fine | SidClass::OverLimit(_));
+            let (mut allowed, mut case, mut legal) = match sid_rule {
+                Some(e) => (e.allowed, e.case, e.legal),
+                None => (Vec::new(), String::new(), true),
+            };
+            if !allowed.is_empty() {
+                legal = false;
+            }
+            if end > MAX62 {
+                union(&mut allowed, &mut case, &["FrameEncoding", "FlowControl"], "stream:offset+len-overflow");
+                legal = false;
+            }
+            if on_stream && !m.terminal {
+                let n0 = allowed.len();
                 if let Some(f) = m.final_size {
                     if end > f {
                         union(&mut allowed, &mut case, &["FinalSize"], "stream:beyond-final-size");
@@ -722,7 +732,16 @@ pub fn probe(h: &StreamHist, forged: &Forged) -> ProbeResult {
                 if end.max(m.largest) - m.largest > conn_room {
                     union(&mut allowed, &mut case, &["FlowControl"], "stream:beyond-conn-window");
                 }
-                Some(if allowed.is_empty() { Expect { case: "stream:legal".into(), allowed: vec!["Ok"], legal: true } } else { Expect { case, allowed, legal: false } })
+                if allowed.len() > n0 || (n0 > 0 && !legal) {
+                    legal = false;
+                }
+            }
+            res.expect = Some(if m.terminal && legal {
+                Expect { case: "stream:closed".into(), allowed: vec![], legal: true }
+            } else if allowed.is_empty() && legal && case.is_empty() {
+                Expect { case: "stream:legal".into(), allowed: vec!["Ok"], legal: true }
+            } else {
+                Expect { case, allowed, legal }
             });
             (wire::stream(fx.raw_sid(k), off.min(MAX62), &vec![0xee; *len as usize], *fin), "streams.recv_data")
         }
@@ -734,11 +753,16 @@ pub fn probe(h: &StreamHist, forged: &Forged) -> ProbeResult {
                 "RESET_STREAM {k:?} final_size={fs}; stream largest={} final={:?} window={} terminal={}, connection room {conn_room}, limits {:?}, opened {:?}",
                 m.largest, m.final_size, m.window, m.terminal, fx.limit, fx.opened_local
             );
-            res.expect = sid_expect(&fx, "reset_stream", k, true, false).or_else(|| {
-                if m.terminal {
-                    return Some(Expect { case: "reset_stream:closed".into(), allowed: vec![], legal: true });
-                }
-                let (mut allowed, mut case) = (Vec::new(), String::new());
+            let sid_rule = sid_expect(&fx, "reset_stream", k, true, false);
+            let on_stream = matches!(classify(&fx, k, true), SidClass::Fine | SidClass::OverLimit(_));
+            let (mut allowed, mut case, mut legal) = match sid_rule {
+                Some(e) => (e.allowed, e.case, e.legal),
+                None => (Vec::new(), String::new(), true),
+            };
+            if !allowed.is_empty() {
+                legal = false;
+            }
+            if on_stream && !m.terminal {
                 if let Some(f) = m.final_size {
                     if fs != f {
                         union(&mut allowed, &mut case, &["FinalSize"], "reset_stream:final-size-change");
@@ -753,7 +777,16 @@ pub fn probe(h: &StreamHist, forged: &Forged) -> ProbeResult {
                 if fs.max(m.largest) - m.largest > conn_room {
                     union(&mut allowed, &mut case, &["FlowControl"], "reset_stream:final-size-beyond-conn-window");
                 }
-                Some(if allowed.is_empty() { Expect { case: "reset_stream:legal".into(), allowed: vec!["Ok"], legal: true } } else { Expect { case, allowed, legal: false } })
+                if !allowed.is_empty() {
+                    legal = false;
+                }
+            }
+            res.expect = Some(if m.terminal && legal {
+                Expect { case: "reset_stream:closed".into(), allowed: vec![], legal: true }
+            } else if allowed.is_empty() && legal && case.is_empty() {
+                Expect { case: "reset_stream:legal".into(), allowed: vec!["Ok"], legal: true }
+            } else {
+                Expect { case, allowed, legal }
             });
             (wire::reset_stream(fx.raw_sid(k), err.resolve(&none), fs), "streams.recv_stream_control")
         }
@@ -833,7 +866,7 @@ pub fn probe(h: &StreamHist, forged: &Forged) -> ProbeResult {
     if matches!(forged, Forged::StopSending { .. }) && after > before {
         res.notes.push("probe.stop_sending_answered_with_reset");
     }
-    let _ = simcore::panics::guarded(move || drop(fx));
+    let _ = meter::guarded(move || drop(fx));
     res
 }
 
@@ -893,6 +926,7 @@ pub fn probe_crypto(h: &CryptoHist, forged: &Forged) -> ProbeResult {
             }
         }
     }
+    meter::arm(true);
     let mut res = ProbeResult::new();
     res.units = units;
     let off = if offset.is_anchored() {
